@@ -127,6 +127,8 @@ def rand_formula(rng, allow_negative=True, max_terms=5) -> (str, dict):
             cnt = rng.randint(1, 24)
             if allow_negative and rng.random() < 0.15:
                 cnt = -cnt
+            if rng.random() < 0.04:
+                cnt = 0     # template-generated formulas spell out absent elements (C2H3N1O1S0)
             parts.append(f'{sym}{cnt}' if (cnt != 1 or rng.random() < 0.5) else sym)
         comp[sym] = comp.get(sym, 0) + cnt
     return ''.join(parts), {k: v for k, v in comp.items()}
@@ -323,7 +325,7 @@ def gen_mod(rng, cfg: GenCfg, context: str = '[]', allow_mult: bool = True, weig
         elif r < cfg.p_tag + cfg.p_alt and m.mono is not None:
             m = with_alt(rng, m)
     if allow_mult and rng.random() < cfg.p_mult:
-        m.mult = rng.randint(2, 5)
+        m.mult = rng.randint(2, 5) if rng.random() < 0.9 else rng.choice([10, 11, 12, 25, 100])   # two/three-digit ^n
     if context == '{}' and not balanced(m.text, '{', '}'):
         return gen_mod(rng, cfg, context, allow_mult, weights)
     if context == '<>' and ('@' in m.text or '<' in m.text or '>' in m.text):
